@@ -6,18 +6,23 @@ package main
 
 import (
 	"fmt"
+	"os"
 	"path/filepath"
+	"time"
 
 	"github.com/ErdemOzgen/blackdagger/internal/client"
 	"github.com/ErdemOzgen/blackdagger/internal/config"
 	"github.com/ErdemOzgen/blackdagger/internal/dag"
+	dagsched "github.com/ErdemOzgen/blackdagger/internal/dag/scheduler"
 	fdag "github.com/ErdemOzgen/blackdagger/internal/frontend/dag"
 	"github.com/ErdemOzgen/blackdagger/internal/frontend/gen/restapi/operations"
 	"github.com/ErdemOzgen/blackdagger/internal/frontend/gen/restapi/operations/dags"
 	"github.com/ErdemOzgen/blackdagger/internal/persistence"
 	dsclient "github.com/ErdemOzgen/blackdagger/internal/persistence/client"
 	"github.com/ErdemOzgen/blackdagger/internal/persistence/local"
+	"github.com/ErdemOzgen/blackdagger/internal/persistence/model"
 	"github.com/ErdemOzgen/blackdagger/internal/scheduler"
+	"github.com/ErdemOzgen/blackdagger/internal/util"
 	"github.com/ErdemOzgen/blackdagger/internal/zzverif/venv"
 )
 
@@ -33,9 +38,43 @@ func (in *inst) store() persistence.DAGStore {
 	return local.NewDAGStore(&local.NewDAGStoreArgs{Dir: in.DAGs})
 }
 
+func (in *inst) stores() persistence.DataStores {
+	return dsclient.NewDataStores(in.DAGs, in.Data, in.Flags, dsclient.DataStoreOptions{LatestStatusToday: true})
+}
+
 func (in *inst) client() client.Client {
-	ds := dsclient.NewDataStores(in.DAGs, in.Data, in.Flags, dsclient.DataStoreOptions{LatestStatusToday: true})
-	return client.New(ds, "/bin/false", in.Root, venv.Quiet)
+	return client.New(in.stores(), "/bin/false", in.Root, venv.Quiet)
+}
+
+const histReq = "verif-req-1"
+
+// seedHistory records one finished run of the member's definition file (request id histReq, one node
+// for step s0 with a log file, started now), so that the entry points that look a run up (step-log and
+// scheduler-log tabs, GetStatusByRequestID, mark-success, the daemon's "already ran" refusal) get past
+// their first look-up. The record is written through the real history store; it is keyed by the file
+// location only and holds nothing of the member's document.
+func (in *inst) seedHistory() error {
+	logf := filepath.Join(in.Logs, "run.log")
+	if err := os.WriteFile(logf, []byte("log line\n"), 0o644); err != nil {
+		return &harnessErr{"history seed: " + err.Error()}
+	}
+	now := time.Now()
+	hs := in.stores().HistoryStore()
+	if err := hs.Open(in.File, now, histReq); err != nil {
+		return &harnessErr{"history seed: open: " + err.Error()}
+	}
+	st := &model.Status{RequestID: histReq, Name: in.Name, Status: dagsched.StatusSuccess, StatusText: dagsched.StatusSuccess.String(),
+		Nodes: []*model.Node{{Step: dag.Step{Name: "s0"}, Log: logf, StartedAt: util.FormatTime(now), FinishedAt: util.FormatTime(now),
+			Status: dagsched.NodeStatusSuccess, StatusText: dagsched.NodeStatusSuccess.String()}},
+		StartedAt: util.FormatTime(now), FinishedAt: util.FormatTime(now), Log: logf}
+	if err := hs.Write(st); err != nil {
+		_ = hs.Close()
+		return &harnessErr{"history seed: write: " + err.Error()}
+	}
+	if err := hs.Close(); err != nil {
+		return &harnessErr{"history seed: close: " + err.Error()}
+	}
+	return nil
 }
 
 func (in *inst) api() *operations.BlackdaggerAPI {
@@ -47,6 +86,10 @@ func (in *inst) api() *operations.BlackdaggerAPI {
 type entry struct {
 	Name string
 	Hot  bool // drives the daemon's directory watcher (hotreload.go)
+	// SparseInQuick: the quick tier runs this entry on the sparse documents only (thorough: both profiles).
+	SparseInQuick bool
+	// Thorough: the entry is part of the thorough tier only (a variant of a quick-tier entry).
+	Thorough bool
 	// Loads: whether the entry parses the document at all (GetSpec only reads the bytes).
 	Fn func(in *inst) error
 }
@@ -114,6 +157,136 @@ var entries = []entry{
 		return nil
 	}},
 }
+
+// ---- entry points added for "the definition names an existing variable" (seeded/C19-4) ----
+//
+// Everything in internal/client, internal/frontend/dag and internal/scheduler that reads, shows,
+// validates or refuses without starting a run. Left out on purpose (see mutants/C19/README.md):
+// client.Start/StartAsync/Restart/Retry and the API actions start / retry-with-request-id and
+// jobImpl.Restart (they start a run: the other side of the property's boundary); client.Stop (talks to
+// a running agent's socket, reads nothing of a definition); client.CreateDAG / api.createDag (writes
+// the fixed template, no definition is read); api start-refused-because-running (needs a live agent
+// socket; its pre-check is the same client.GetStatus call as the other refused actions).
+
+func (in *inst) loaded() (*dag.DAG, error) {
+	st, err := in.client().GetStatus(in.Name)
+	if st == nil || st.DAG == nil {
+		return nil, &harnessErr{fmt.Sprintf("GetStatus returned no DAG value (err=%v)", err)}
+	}
+	return st.DAG, nil
+}
+
+func action(in *inst, body dags.PostDagActionBody, wantRefused bool) error {
+	r := in.api().DagsPostDagActionHandler.Handle(dags.PostDagActionParams{DagID: in.Name, Body: body})
+	if r == nil {
+		return fmt.Errorf("nil responder")
+	}
+	if _, refused := r.(*dags.PostDagActionDefault); wantRefused && !refused {
+		return &harnessErr{fmt.Sprintf("action %s was expected to be refused but was accepted (%T)", *body.Action, r)}
+	}
+	return nil
+}
+
+var moreEntries = []entry{
+	// client: status look-ups on the DAG value the details view works with
+	{Name: "client.GetStatusByRequestID", SparseInQuick: true, Fn: func(in *inst) error {
+		if err := in.seedHistory(); err != nil {
+			return err
+		}
+		d, err := in.loaded()
+		if err != nil {
+			return err
+		}
+		_, err = in.client().GetStatusByRequestID(d, histReq)
+		return err
+	}},
+	{Name: "client.GetCurrentStatus+GetLatestStatus+GetRecentHistory+IsSuspended", SparseInQuick: true, Fn: func(in *inst) error {
+		if err := in.seedHistory(); err != nil {
+			return err
+		}
+		d, err := in.loaded()
+		if err != nil {
+			return err
+		}
+		cl := in.client()
+		_, _ = cl.GetCurrentStatus(d)
+		_, _ = cl.GetLatestStatus(d)
+		_ = cl.GetRecentHistory(d, 10)
+		_ = cl.IsSuspended(in.Name)
+		return nil
+	}},
+	// API: the remaining list filter, the remaining details tabs
+	{Name: "api.listDags(searchTag)", SparseInQuick: true, Fn: func(in *inst) error {
+		if in.api().DagsListDagsHandler.Handle(dags.ListDagsParams{SearchTag: sp("base-t1")}) == nil {
+			return fmt.Errorf("nil responder")
+		}
+		return nil
+	}},
+	{Name: "api.getDagDetails(log)", SparseInQuick: true, Fn: func(in *inst) error {
+		if err := in.seedHistory(); err != nil {
+			return err
+		}
+		tab := "log"
+		if in.api().DagsGetDagDetailsHandler.Handle(dags.GetDagDetailsParams{DagID: in.Name, Tab: &tab, Step: sp("s0")}) == nil {
+			return fmt.Errorf("nil responder")
+		}
+		return nil
+	}},
+	{Name: "api.getDagDetails(scheduler-log)", SparseInQuick: true, Fn: func(in *inst) error {
+		if err := in.seedHistory(); err != nil {
+			return err
+		}
+		return detail(in, "scheduler-log")
+	}},
+	{Name: "api.getDagDetails(unknown-tab,refused)", Thorough: true, Fn: func(in *inst) error { return detail(in, "no-such-tab") }},
+	// API: delete (GetStatus pre-check, then removal) and the POST actions that do not start a run
+	{Name: "api.deleteDag", SparseInQuick: true, Fn: func(in *inst) error {
+		if in.api().DagsDeleteDagHandler.Handle(dags.DeleteDagParams{DagID: in.Name}) == nil {
+			return fmt.Errorf("nil responder")
+		}
+		return nil
+	}},
+	{Name: "api.postAction(suspend)", SparseInQuick: true, Fn: func(in *inst) error {
+		return action(in, dags.PostDagActionBody{Action: sp("suspend"), Value: "true"}, false)
+	}},
+	{Name: "api.postAction(stop,refused:not-running)", SparseInQuick: true, Fn: func(in *inst) error {
+		return action(in, dags.PostDagActionBody{Action: sp("stop")}, true)
+	}},
+	{Name: "api.postAction(retry,refused:no-request-id)", SparseInQuick: true, Fn: func(in *inst) error {
+		return action(in, dags.PostDagActionBody{Action: sp("retry")}, true)
+	}},
+	{Name: "api.postAction(mark-success)", SparseInQuick: true, Fn: func(in *inst) error {
+		if err := in.seedHistory(); err != nil {
+			return err
+		}
+		return action(in, dags.PostDagActionBody{Action: sp("mark-success"), RequestID: histReq, Step: "s0"}, false)
+	}},
+	{Name: "api.postAction(mark-failed,refused:no-request-id)", Thorough: true, Fn: func(in *inst) error {
+		return action(in, dags.PostDagActionBody{Action: sp("mark-failed"), Step: "s0"}, true)
+	}},
+	{Name: "api.postAction(save)", SparseInQuick: true, Fn: func(in *inst) error {
+		return action(in, dags.PostDagActionBody{Action: sp("save"), Value: string(in.Data_)}, false)
+	}},
+	{Name: "api.postAction(rename)", SparseInQuick: true, Fn: func(in *inst) error {
+		return action(in, dags.PostDagActionBody{Action: sp("rename"), Value: in.Name + "_renamed"}, false)
+	}},
+	{Name: "api.postAction(unknown-action,refused)", Thorough: true, Fn: func(in *inst) error {
+		return action(in, dags.PostDagActionBody{Action: sp("no-such-action")}, true)
+	}},
+	// scheduler daemon: the entry reader's Read (next-run table) and the jobs' refusals
+	{Name: "scheduler.entryReader.Read+job.Start(refused:already-ran)+job.Stop(refused:not-running)", SparseInQuick: true, Fn: func(in *inst) error {
+		if err := in.seedHistory(); err != nil {
+			return err
+		}
+		msg := scheduler.VerifReadAndRefuse(in.DAGs, in.Root, venv.Quiet, in.client(), time.Now().Add(-72*time.Hour))
+		if msg != "" {
+			return &harnessErr{msg}
+		}
+		return nil
+	}},
+}
+
+func init() { entries = append(entries, moreEntries...) }
 
 func detail(in *inst, tab string) error {
 	if in.api().DagsGetDagDetailsHandler.Handle(dags.GetDagDetailsParams{DagID: in.Name, Tab: &tab}) == nil {
